@@ -233,8 +233,8 @@ H_ASSIGN_SELF(h_assign_self_m)
 H_SELF_OPERAND(h_self_operand)
 /*@GROUP name=insert_self props=C04,C02 kind=K unwind=11 when=VF_N<=7@*/
 H_INSERT_SELF(h_insert_self, N)
-/*@GROUP name=insert_self_m props=C04,C02 kind=B bound=inserted<=2 unwind=20 when=7<VF_N<=16 objbits=13 tier=thorough timeout=3000@*/
-H_INSERT_SELF(h_insert_self_m, 2)   /* at most two inserted characters: the full range did not finish in 3000 s at capacity 15/16 */
+/*@GROUP name=insert_self_m props=C04,C02 kind=B bound=inserted<=1 unwind=20 when=7<VF_N<=16 objbits=13 tier=thorough timeout=3000@*/
+H_INSERT_SELF(h_insert_self_m, 1)   /* one inserted character: two did not finish in 3000 s at capacity 15/16 (rotate over symbolic positions) */
 /*@GROUP name=append_self props=C04,C02 kind=K unwind=11 when=VF_N<=7@*/
 H_APPEND_SELF(h_append_self)
 /*@GROUP name=append_self_m props=C04,C02 kind=K unwind=20 when=7<VF_N<=16 objbits=13 tier=thorough timeout=3000@*/
@@ -347,7 +347,7 @@ H_APPEND_STR(h_append_str_w, ((void)0))
 H_APPEND_STR_SUB(h_append_str_sub, ((void)0))
 /*@GROUP name=append_str_sub_m props=C04,C02,C05 kind=K unwind=20 when=7<VF_N<=16 tier=thorough solver=kissat objbits=12 unwindset=_ZN3etl4fillIPccEEvT_S2_RKT0_.0:3@*/
 H_APPEND_STR_SUB(h_append_str_sub_m, ((void)0))
-/*@GROUP name=append_str_sub_w props=C04,C02,C05 kind=K unwind=35 when=VF_N>16 objbits=12 unwindset=_ZN3etl4fillIPccEEvT_S2_RKT0_.0:3 tier=thorough timeout=3000@*/
+/*@GROUP name=append_str_sub_w props=C04,C02,C05 kind=K unwind=35 when=VF_N>16 objbits=12 unwindset=_ZN3etl4fillIPccEEvT_S2_RKT0_.0:3 tier=thorough timeout=6000@*/
 H_APPEND_STR_SUB(h_append_str_sub_w, ((void)0))
 
 /*@COMMON@*/
@@ -1067,7 +1067,7 @@ H_VIOL_INDEX(h_viol_index_w, ((void)0))
 H_VIOL_POS(h_viol_pos, ((void)0))
 /*@GROUP name=viol_pos_m props=C05,C02 kind=K unwind=20 when=7<VF_N<=16@*/
 H_VIOL_POS(h_viol_pos_m, ((void)0))
-/*@GROUP name=viol_pos_w props=C05,C02 kind=K unwind=35 when=VF_N>16 tier=thorough timeout=3000@*/
+/*@GROUP name=viol_pos_w props=C05,C02 kind=K unwind=35 when=VF_N>16 objbits=14 tier=thorough timeout=3000@*/
 H_VIOL_POS(h_viol_pos_w, ((void)0))
 
 /*@COMMON@*/
